@@ -243,6 +243,10 @@ def references():
     return dict(pmap(child_reference, list(itertools.product(range(NMODELS), range(NCFGS)))))
 
 
+
+from ..failhist import FS_OPS, FS_FAIL, FS_VALID, fs_references, fs_histories, run_fs_history  # noqa: E402  pylint: disable=wrong-import-position
+
+
 PREFIXES = [None, 'Dzn', 'Vendor.Dzn', 'Dzn.Vendor', 'dzn', 'Dzn.Dzn', 'A', 'A.B.C.D', 'Dzn_', '_Dzn', 'My.Project',
             'Other.Project', 'DznX', 'X.Dzn.Y', 'Support', 'Vendor.dzn']
 
@@ -285,6 +289,9 @@ OPS = [[mi, ci, which] for mi in range(NMODELS) for ci in range(NCFGS) for which
 def judge(case):
     if 'prefixes' in case:
         return judge_prefix(case)
+    if 'fs_history' in case:
+        from ..failhist import judge_fs  # pylint: disable=import-outside-toplevel
+        return judge_fs(case)
     ref = case.get('reference') or references()
     res, _ = run_history(case['history'], ref)
     seen, out = set(), []
@@ -310,6 +317,10 @@ def work(job):
                 for key, what in res:
                     part.violation(key, what, case)
         part.states = part.evaluations
+    elif kind == 'failstages':
+        from ..failhist import _fs_job  # pylint: disable=import-outside-toplevel
+        which, override, thorough, first_op = first
+        part = _fs_job((which, override, 'thorough' if thorough else 'quick', first_op, reference))
     elif kind == 'sweep':
         for tail in itertools.product(OPS, repeat=depth - 1):
             hist = [first] + [list(o) for o in tail]
@@ -363,6 +374,12 @@ def explore(ctx):
     for d in range(1, depth + 1):
         jobs += [('sweep', list(op), d, reference) for op in OPS]
     jobs.append(('prefixes', None, 0, None))
+    fs_ref = fs_references()
+    for which in ('shared', 'fresh'):
+        for override in (None, 2):
+            for first_op in FS_OPS:
+                jobs.append(('failstages', (which, override, ctx.thorough, first_op), 0, fs_ref))
+    ctx.extra['reference_child_processes'] += len(fs_ref)
     for part in pmap(work, jobs):
         ctx.merge(part)
     if ctx.nviol == 0:
